@@ -1641,6 +1641,11 @@ def take_label(x):
     return name + "()"
 
 
+def take_end(x):
+    """'front' / 'back': the end of the job queue that a read or a removal recognised by take_ops refers to"""
+    return "back" if x["callee"]["name"] in ("back", "pop_back") else "front"
+
+
 def reach_fields(locks, fn, seen=None):
     """data members mentioned by fn and by the members of the pool it calls"""
     seen = seen if seen is not None else set()
@@ -2010,6 +2015,21 @@ def run(ck):
                     if doubt:
                         undecided(worker, x, doubt)
                     bad = (x, "%s is reached without a preceding front()" % take_label(x))
+        if bad is None:
+            # the element read and the element removed must be the same end of the queue
+            for x in pops:
+                before = [y for y in fronts if g.pos(y) and g.pos(x) and g.dominates(g.pos(y), g.pos(x))] or fronts
+                if all(take_end(y) != take_end(x) for y in before):
+                    if odd:
+                        undecided(worker, odd[0], "access to an element of %s / removal from it in a form that is not understood: %s" % (QUEUE, dtable.describe(odd[0])[:50]))
+                    y = before[0]
+                    first, last = ("j1", "j2")
+                    rd, rm = (last, first) if take_end(y) == "back" else (first, last)
+                    ck.violation("TAKE-ATOMIC", worker.qname, "take-ends", "the job that is read is not the job that is removed: %s reads the %s of %s "
+                                 "but %s removes the %s. Counterexample: queue [j1, j2]: the element read is %s but the element removed is %s -> %s never runs, "
+                                 "%s's slot stays queued and is taken again (%s runs twice / its moved-from shell is invoked)"
+                                 % (take_label(y), take_end(y), QUEUE, take_label(x), take_end(x), rd, rm, rm, rd, rd), worker.nloc(x))
+                    return
         if bad is not None:
             if qs.unknown:
                 undecided(worker, qs.unknown[0][0], qs.unknown[0][1])
